@@ -26,7 +26,7 @@ for _p, (_lo, _hi) in e2e.INT_RANGES.items():
     KINDS[_p] = ["n", "1", str(_lo), str(_hi)]
 PLACEHOLDER = {"type": {"prim": "Boolean"}}
 # further strings per format whose verdict is asked of the C17 Lean format specification (drv_fmt)
-FORMAT_EXTRA = {"ipv4": ["::ffff:192.168.0.1", "1.2.3.4", "256.1.1.1", "1.2.3"], "date": ["2024-02-30", "2023-02-28", "2024-2-01"],
+FORMAT_EXTRA = {"ipv4": ["::ffff:192.168.0.1", "1.2.3.4", "256.1.1.1", "1.2.3"], "date": ["2024-02-30", "2023-02-28", "2024-2-01", "1999-12-31"],
                 "uuid": ["6BA7B810-9DAD-11D1-80B4-00C04FD430C8", "6ba7b8109dad11d180b400c04fd430c8"], "mac": ["00-00-5e-00-53-01", "00:00:5e:00:53"],
                 "cidr": ["10.0.0.0/33", "10.0.0.0/0"], "hostname": ["a.b-c.d", "-a.b"]}
 FORMAT_VERDICTS = {}
